@@ -3,6 +3,7 @@ package main
 // Specification tables for E1/E8: obligations (facts required at sinks) and their evaluation.
 
 import (
+	"sort"
 	"fmt"
 	"os"
 	"go/types"
@@ -303,6 +304,9 @@ func evalOb(c *Ctx, e *e1, ob Ob) (nMatched int) {
 					if r := expandReturned(s.states[0], st); r != nil {
 						cands = append(cands, r)
 						cands = append(cands, f.expandDefs(s.states[0], r)...)
+					}
+					if nf := normalForm(s.states[0], st); nf != nil {
+						cands = append(cands, nf)
 					}
 					cands = append(cands, rewriteClosure(s.states[0], st, 160)...)
 					for _, x := range cands {
@@ -617,6 +621,106 @@ func rewriteWith(alts map[string][]*Term, t *Term, limit int, top bool) []*Term 
 			})
 		}
 		frontier = next
+	}
+	return out
+}
+
+// normalForm: the sink term with every variable replaced by its (still valid) definition, every interpreted helper call
+// by the value it returned on this path, field selections of struct literals by the field's value, and field stores
+// recorded for a variable that holds a struct literal merged into the literal.  One candidate spelling among others:
+// it is what the sink receives when all temporaries, helpers and carrier structs are looked through.
+func normalForm(st *fstate, t *Term) *Term {
+	alts := stateAlts(st)
+	if len(alts) == 0 {
+		return nil
+	}
+	// field values recorded for a variable: eq(x.F, v)
+	fields := map[string][][2]*Term{}
+	for _, k := range sortedKeys(st.facts) {
+		fc := st.facts[k]
+		if fc.S == "eq" && len(fc.A) == 2 && fc.A[0].K == "sel" && len(fc.A[0].A) == 1 && fc.A[0].A[0].K == "var" {
+			x := fc.A[0].A[0].Key()
+			fields[x] = append(fields[x], [2]*Term{mk("const", fc.A[0].S), fc.A[1]})
+		}
+	}
+	litOf := func(t *Term) *Term {
+		if t.K == "op" && t.S == "&" && len(t.A) == 1 && t.A[0].K == "lit" {
+			return t.A[0]
+		}
+		if t.K == "lit" {
+			return t
+		}
+		return nil
+	}
+	changed := false
+	var rec func(t *Term, depth int, top bool) *Term
+	rec = func(t *Term, depth int, top bool) *Term {
+		n := t
+		if len(t.A) > 0 {
+			n = &Term{K: t.K, S: t.S, Obj: t.Obj}
+			for _, a := range t.A {
+				n.A = append(n.A, rec(a, depth, false))
+			}
+		}
+		if n.K == "sel" && len(n.A) == 1 {
+			if l := litOf(n.A[0]); l != nil {
+				for _, kv := range l.A {
+					if kv.K == "kv" && kv.S == n.S && len(kv.A) == 1 {
+						changed = true
+						return kv.A[0]
+					}
+				}
+			}
+		}
+		if top || depth > 6 {
+			return n
+		}
+		as := alts[t.Key()]
+		if len(as) == 0 && (t.K == "call" || t.K == "mcall") {
+			as = alts[mk("res", "0", t).Key()]
+		}
+		if len(as) == 0 && n != t {
+			as = alts[n.Key()]
+		}
+		if len(as) == 0 {
+			return n
+		}
+		changed = true
+		v := rec(as[0], depth+1, false)
+		if t.K == "var" {
+			if l := litOf(v); l != nil && len(fields[t.Key()]) > 0 {
+				nl := &Term{K: l.K, S: l.S, Obj: l.Obj}
+				over := map[string]*Term{}
+				for _, fv := range fields[t.Key()] {
+					over[fv[0].S] = rec(fv[1], depth+1, false)
+				}
+				for _, kv := range l.A {
+					if ov, ok := over[kv.S]; ok && kv.K == "kv" {
+						nl.A = append(nl.A, mk("kv", kv.S, ov))
+						delete(over, kv.S)
+					} else {
+						nl.A = append(nl.A, kv)
+					}
+				}
+				var ks []string
+				for k := range over {
+					ks = append(ks, k)
+				}
+				sort.Strings(ks)
+				for _, k := range ks {
+					nl.A = append(nl.A, mk("kv", k, over[k]))
+				}
+				if v.K == "op" {
+					return mk("op", "&", nl)
+				}
+				return nl
+			}
+		}
+		return v
+	}
+	out := rec(t, 0, true)
+	if !changed {
+		return nil
 	}
 	return out
 }
